@@ -46,6 +46,8 @@ m("c05-healthcheck-after-shutdown", "C05", EXEC, "                if self.termin
 m("c02-no-pop-computable", "C02", ASSIGN, "            component.computable.pop(task)\n            component.worker2task_values.remove(task)\n            remaining_t.remove(task)", "            component.worker2task_values.remove(task)\n            remaining_t.remove(task)", "task stays computable after assignment in the greedy branch")
 m("c02-idle-on-any-output", "C02", NOTIFY, "    return len(published) == len(definition.output_schema)", "    return len(published) >= 1", "worker re-becomes idle when *any* output is published")
 m("c02-ignore-gpu", "C02", ASSIGN, "        if job.tasks[task].definition.needs_gpu:\n            gpu_t.append(task)", "        if job.tasks[task].definition.needs_gpu and len(workers) > 2:\n            gpu_t.append(task)", "GPU requirement ignored on small hosts")
+m("c02-worker-lost-wakeup", "C02", "src/cascade/executor/runner/entrypoint.py", "                    if waiting_ts is not None and (not missing_ds):\n", "                    if waiting_ts is not None and (not missing_ds) and len(availab_ds) % 2:\n", "worker forgets to start the waiting sequence when the number of known datasets is even (lost wake-up)")
+m("c02-worker-starts-on-first-notice", "C02", "src/cascade/executor/runner/entrypoint.py", "                    if waiting_ts is not None and (not missing_ds):\n", "                    if waiting_ts is not None:\n", "worker starts the waiting sequence on the first notice of a missing input")
 m("c02-skip-remote-prep", "C02", ASSIGN, "                    prep.append((dataset, candidate))\n", "                    if len(state.ds2host[dataset]) < 2:\n                        prep.append((dataset, candidate))\n", "no transfer commanded when the dataset already has two holders")
 # ---- C03 ------------------------------------------------------------------------------------------------
 m("c03-ongoing-double-decrement", "C03", NOTIFY, "                    state.ongoing_total -= 1\n                    state.remaining -= 1", "                    state.ongoing_total -= 2 if len(state.ongoing[worker]) == 0 and state.remaining == 3 else 1\n                    state.remaining -= 1", "ongoing_total decremented twice in a corner")
